@@ -43,7 +43,7 @@ theorem push_inv (s : State) (e : Ent) (hi : Inv s) : Inv (push s e).1 := by
       have hi' := hi (by simp [hs])
       rcases findEntry_spec s.tbl e.dev e.ino id with ⟨h1, _⟩ | ⟨pre, le0, post, h1, _, _, h4⟩
       · simp only [h1]; intro _ le hle
-        simp [insertEntry] at hle
+        simp [insertEntry, LE.ofEnt] at hle
         rcases hle with h | h
         · exact hi' le h
         · simp [h]
@@ -61,7 +61,7 @@ theorem push_inv (s : State) (e : Ent) (hi : Inv s) : Inv (push s e).1 := by
       have hi' := hi (by simp [hs])
       rcases findEntry_spec s.tbl e.dev e.ino id with ⟨h1, _⟩ | ⟨pre, le0, post, h1, _, _, h4⟩
       · simp only [h1]; intro _ le hle
-        simp [insertEntry] at hle
+        simp [insertEntry, LE.ofEnt] at hle
         rcases hle with h | h
         · exact hi' le h
         · simp [h]
@@ -93,7 +93,7 @@ theorem push_conserves (s : State) (e : Ent) (hi : Inv s) :
     | tar =>
       have hi' := hi (by simp [hs])
       rcases findEntry_spec s.tbl e.dev e.ino id with ⟨h1, _⟩ | ⟨pre, le0, post, h1, _, _, h4⟩
-      · simp [h1, insertEntry, heldOf_append, heldOf_cons, tags, Ent.mkLink, heldOf]; perm_count
+      · simp [h1, insertEntry, LE.ofEnt, heldOf_append, heldOf_cons, tags, Ent.mkLink, heldOf]; perm_count
       · rw [h4]; simp only [h1]
         have h0 : le0.held = none := hi' le0 (by simp [h1])
         by_cases hl : 0 < u32dec le0.links <;>
@@ -101,7 +101,7 @@ theorem push_conserves (s : State) (e : Ent) (hi : Inv s) :
     | mtree =>
       have hi' := hi (by simp [hs])
       rcases findEntry_spec s.tbl e.dev e.ino id with ⟨h1, _⟩ | ⟨pre, le0, post, h1, _, _, h4⟩
-      · simp [h1, insertEntry, heldOf_append, heldOf_cons, tags, Ent.mkLink, heldOf]; perm_count
+      · simp [h1, insertEntry, LE.ofEnt, heldOf_append, heldOf_cons, tags, Ent.mkLink, heldOf]; perm_count
       · rw [h4]; simp only [h1]
         have h0 : le0.held = none := hi' le0 (by simp [h1])
         by_cases hl : 0 < u32dec le0.links <;>
@@ -109,7 +109,7 @@ theorem push_conserves (s : State) (e : Ent) (hi : Inv s) :
     | newCpio =>
       rcases findEntry_spec s.tbl e.dev e.ino (fun _ => some e) with
         ⟨h1, _⟩ | ⟨pre, le0, post, h1, _, _, h4⟩
-      · simp [h1, insertEntry, heldOf_append, heldOf_cons, tags, heldOf]
+      · simp [h1, insertEntry, LE.ofEnt, heldOf_append, heldOf_cons, tags, heldOf]
       · rw [h4]; simp only [h1]
         by_cases hl : 0 < u32dec le0.links
         · have : (u32dec le0.links == 0) = false := by simp; omega
@@ -273,5 +273,652 @@ theorem exactly_once (st : Strategy) (ops : List Op) (ks : List Nat)
   have := hc a; have := d1' a
   simp only [List.count_append, heldOf, List.filterMap_nil, List.map_nil, List.count_nil] at *
   omega
+
+/-! ### Entries come out unmodified except for link bookkeeping -/
+
+/-- Agreement on everything the resolver must not touch. -/
+def sameBut (a b : Ent) : Prop :=
+  a.tag = b.tag ∧ a.dev = b.dev ∧ a.ino = b.ino ∧ a.nlink = b.nlink ∧ a.ftype = b.ftype
+
+theorem sameBut_refl (a : Ent) : sameBut a a := ⟨rfl, rfl, rfl, rfl, rfl⟩
+theorem sameBut_mkLink (a : Ent) (c : Nat) (u : Bool) : sameBut (a.mkLink c u) a := ⟨rfl, rfl, rfl, rfl, rfl⟩
+
+/-- `Pres src out`: every entry in `out` is some entry of `src` up to hardlink/size. -/
+def Pres (src out : List Ent) : Prop := ∀ o ∈ out, ∃ i ∈ src, sameBut o i
+
+theorem pres_mono {a b c : List Ent} (h : Pres a c) (hs : ∀ x ∈ a, x ∈ b) : Pres b c :=
+  fun o ho => let ⟨i, hi, hsb⟩ := h o ho; ⟨i, hs i hi, hsb⟩
+
+theorem push_pres (s : State) (e : Ent) :
+    Pres (heldOf s.tbl ++ [e]) ((push s e).2.1.toList ++ (push s e).2.2.toList ++ heldOf (push s e).1.tbl) := by
+  unfold push
+  by_cases hp : passthrough e = true
+  · simp only [hp, if_true]
+    intro o ho
+    simp at ho
+    rcases ho with rfl | ho
+    · exact ⟨o, by simp, sameBut_refl o⟩
+    · exact ⟨o, by simp [ho], sameBut_refl o⟩
+  · simp only [hp]
+    have base : ∀ o, (o = e ∨ o ∈ heldOf s.tbl) → ∃ i ∈ heldOf s.tbl ++ [e], sameBut o i := by
+      intro o ho
+      rcases ho with rfl | ho
+      · exact ⟨o, by simp, sameBut_refl o⟩
+      · exact ⟨o, by simp [ho], sameBut_refl o⟩
+    cases hs : s.strategy with
+    | oldCpio => intro o ho; simp at ho; exact base o ho
+    | tar =>
+      rcases findEntry_spec s.tbl e.dev e.ino id with ⟨h1, _⟩ | ⟨pre, le0, post, h1, _, _, h4⟩
+      · simp only [h1]
+        intro o ho
+        simp [insertEntry, LE.ofEnt, heldOf_append, heldOf_cons] at ho
+        exact base o (by rcases ho with h | h <;> first | exact Or.inl h | exact Or.inr h)
+      · rw [h4]
+        intro o ho
+        by_cases hl : 0 < u32dec le0.links <;>
+          simp [hl, heldOf_append, heldOf_cons] at ho
+        all_goals
+          rcases ho with rfl | ho
+          · exact ⟨e, by simp, sameBut_mkLink e _ _⟩
+          · refine ⟨o, ?_, sameBut_refl o⟩
+            simp only [h1, heldOf_append, heldOf_cons, List.mem_append]
+            rcases ho with h | h <;> simp [h]
+    | mtree =>
+      rcases findEntry_spec s.tbl e.dev e.ino id with ⟨h1, _⟩ | ⟨pre, le0, post, h1, _, _, h4⟩
+      · simp only [h1]
+        intro o ho
+        simp [insertEntry, LE.ofEnt, heldOf_append, heldOf_cons] at ho
+        exact base o (by rcases ho with h | h <;> first | exact Or.inl h | exact Or.inr h)
+      · rw [h4]
+        intro o ho
+        by_cases hl : 0 < u32dec le0.links <;>
+          simp [hl, heldOf_append, heldOf_cons] at ho
+        all_goals
+          rcases ho with rfl | ho
+          · exact ⟨e, by simp, sameBut_mkLink e _ _⟩
+          · refine ⟨o, ?_, sameBut_refl o⟩
+            simp only [h1, heldOf_append, heldOf_cons, List.mem_append]
+            rcases ho with h | h <;> simp [h]
+    | newCpio =>
+      rcases findEntry_spec s.tbl e.dev e.ino (fun _ => some e) with
+        ⟨h1, _⟩ | ⟨pre, le0, post, h1, _, _, h4⟩
+      · simp only [h1]
+        intro o ho
+        simp [insertEntry, LE.ofEnt, heldOf_append, heldOf_cons] at ho
+        exact base o (by rcases ho with h | h <;> first | exact Or.inl h | exact Or.inr h)
+      · rw [h4]
+        have hmem : ∀ x, (x ∈ heldOf pre ∨ x ∈ heldOf post ∨ le0.held = some x) → x ∈ heldOf s.tbl ++ [e] := by
+          intro x hx
+          simp only [h1, heldOf_append, heldOf_cons, List.mem_append]
+          rcases hx with h | h | h <;> simp [h]
+        intro o ho
+        by_cases hl : 0 < u32dec le0.links
+        · have : (u32dec le0.links == 0) = false := by simp; omega
+          simp only [hl, this] at ho
+          cases hh : le0.held with
+          | none =>
+            simp [hh, heldOf_append, heldOf_cons] at ho
+            rcases ho with h | rfl | h
+            · exact ⟨o, hmem o (Or.inl h), sameBut_refl o⟩
+            · exact ⟨o, by simp, sameBut_refl o⟩
+            · exact ⟨o, hmem o (Or.inr (Or.inl h)), sameBut_refl o⟩
+          | some x =>
+            simp [hh, heldOf_append, heldOf_cons] at ho
+            rcases ho with rfl | h | rfl | h
+            · exact ⟨x, hmem x (Or.inr (Or.inr hh)), sameBut_mkLink x _ _⟩
+            · exact ⟨o, hmem o (Or.inl h), sameBut_refl o⟩
+            · exact ⟨o, by simp, sameBut_refl o⟩
+            · exact ⟨o, hmem o (Or.inr (Or.inl h)), sameBut_refl o⟩
+        · have h0 : u32dec le0.links = 0 := by omega
+          simp only [h0] at ho
+          cases hh : le0.held with
+          | none =>
+            simp [hh, heldOf_append, heldOf_cons] at ho
+            rcases ho with rfl | h | h
+            · exact ⟨o, by simp, sameBut_refl o⟩
+            · exact ⟨o, hmem o (Or.inl h), sameBut_refl o⟩
+            · exact ⟨o, hmem o (Or.inr (Or.inl h)), sameBut_refl o⟩
+          | some x =>
+            simp [hh, heldOf_append, heldOf_cons] at ho
+            rcases ho with rfl | rfl | h | h
+            · exact ⟨x, hmem x (Or.inr (Or.inr hh)), sameBut_mkLink x _ _⟩
+            · exact ⟨o, by simp, sameBut_refl o⟩
+            · exact ⟨o, hmem o (Or.inl h), sameBut_refl o⟩
+            · exact ⟨o, hmem o (Or.inr (Or.inl h)), sameBut_refl o⟩
+
+theorem sameBut_trans {a b c : Ent} (h1 : sameBut a b) (h2 : sameBut b c) : sameBut a c :=
+  ⟨h1.1.trans h2.1, h1.2.1.trans h2.2.1, h1.2.2.1.trans h2.2.2.1, h1.2.2.2.1.trans h2.2.2.2.1,
+   h1.2.2.2.2.trans h2.2.2.2.2⟩
+
+theorem pres_trans {a b c : List Ent} (h1 : Pres a b) (h2 : Pres b c) : Pres a c := by
+  intro o ho
+  obtain ⟨m, hm, s1⟩ := h2 o ho
+  obtain ⟨i, hi, s2⟩ := h1 m hm
+  exact ⟨i, hi, sameBut_trans s1 s2⟩
+
+theorem pres_of_subset {a b : List Ent} (h : ∀ x ∈ b, x ∈ a) : Pres a b :=
+  fun o ho => ⟨o, h o ho, sameBut_refl o⟩
+
+theorem step_pres (s : State) (op : Op) :
+    Pres (heldOf s.tbl ++ pushed [op]) ((step s op).2 ++ heldOf (step s op).1.tbl) := by
+  cases op with
+  | push e => simpa [step, pushed] using push_pres s e
+  | drain k =>
+    apply pres_of_subset
+    intro x hx
+    have := (drainAt_conserves s k).mem_iff (a := x)
+    simp only [step, pushed, List.append_nil] at hx ⊢
+    exact this.mp hx
+  | partialLinks k =>
+    apply pres_of_subset
+    intro x hx
+    simpa [step, pushed, partialAt_held] using hx
+
+theorem run_pres (s : State) (ops : List Op) :
+    Pres (heldOf s.tbl ++ pushed ops) ((run s ops).2 ++ heldOf (run s ops).1.tbl) := by
+  induction ops generalizing s with
+  | nil => exact pres_of_subset (by simp [run, pushed])
+  | cons op ops ih =>
+    have h1 := step_pres s op
+    have h2 := ih (step s op).1
+    rw [pushed_cons]
+    intro o ho
+    simp only [run, List.mem_append] at ho
+    rcases ho with (ho | ho) | ho
+    · obtain ⟨i, hi, sb⟩ := h1 o (by simp [ho])
+      exact ⟨i, by simp only [List.mem_append] at hi ⊢; rcases hi with h | h <;> simp [h], sb⟩
+    · obtain ⟨m, hm, sb⟩ := h2 o (by simp [ho])
+      simp only [List.mem_append] at hm
+      rcases hm with hm | hm
+      · obtain ⟨i, hi, sb2⟩ := h1 m (by simp [hm])
+        exact ⟨i, by simp only [List.mem_append] at hi ⊢; rcases hi with h | h <;> simp [h], sameBut_trans sb sb2⟩
+      · exact ⟨m, by simp [hm], sb⟩
+    · obtain ⟨m, hm, sb⟩ := h2 o (by simp [ho])
+      simp only [List.mem_append] at hm
+      rcases hm with hm | hm
+      · obtain ⟨i, hi, sb2⟩ := h1 m (by simp [hm])
+        exact ⟨i, by simp only [List.mem_append] at hi ⊢; rcases hi with h | h <;> simp [h], sameBut_trans sb sb2⟩
+      · exact ⟨m, by simp [hm], sb⟩
+
+/-- **C17, unmodified except for link bookkeeping.**  Everything that comes out
+of the resolver — during the pushes or in the final draining — is one of the
+entries that went in, changed at most in its hardlink target and size-is-set. -/
+theorem unmodified_except_link (st : Strategy) (ops : List Op) (ks : List Nat) :
+    Pres (pushed ops) ((run { strategy := st } ops).2 ++
+                       (drainLoop (run { strategy := st } ops).1 ks).2) := by
+  have h := run_pres { strategy := st } ops
+  simp only [heldOf_nil, List.nil_append] at h
+  intro o ho
+  rcases List.mem_append.mp ho with ho | ho
+  · exact h o (by simp [ho])
+  · -- drained entries were held
+    have hsub : ∀ (s : State) (ks : List Nat), ∀ x ∈ (drainLoop s ks).2, x ∈ heldOf s.tbl := by
+      intro s ks
+      induction ks generalizing s with
+      | nil => intro x hx; simp [drainLoop] at hx
+      | cons k ks ih =>
+        intro x hx
+        unfold drainLoop at hx
+        have hc := (drainAt_conserves s k)
+        cases hd : drainAt s k with
+        | mk s' r =>
+          rw [hd] at hx hc
+          cases r with
+          | none => simp at hx
+          | some e =>
+            simp only [List.mem_cons] at hx
+            rcases hx with rfl | hx
+            · exact hc.mem_iff.mp (by simp)
+            · exact hc.mem_iff.mp (by simp [ih s' x hx])
+    exact h o (by simp [hsub _ ks o ho])
+
+/-! ### Pass-through cases -/
+
+/-- Entries with link count one, directories and device nodes pass straight
+through under every strategy; so does everything under the old-cpio strategy. -/
+theorem passthrough_unchanged (s : State) (e : Ent)
+    (h : e.nlink = 1 ∨ e.ftype = .dir ∨ e.ftype = .blk ∨ e.ftype = .chr ∨ s.strategy = .oldCpio) :
+    push s e = (s, some e, none) := by
+  unfold push
+  by_cases hp : passthrough e = true
+  · simp [hp]
+  · simp only [hp]
+    rcases h with h | h | h | h | h
+    · simp [passthrough, h] at hp
+    · simp [passthrough, h] at hp
+    · simp [passthrough, h] at hp
+    · simp [passthrough, h] at hp
+    · simp [h]
+
+/-! ### Group structure (tar, mtree, new cpio) -/
+
+def lookup (tbl : List LE) (d i : Int) : Option LE := tbl.find? (·.hasKey d i)
+
+/-- At most one record per (dev, ino). -/
+def KeysNodup (tbl : List LE) : Prop := (tbl.map fun le => (le.dev, le.ino)).Nodup
+
+theorem hasKey_iff (le : LE) (d i : Int) : le.hasKey d i = true ↔ (le.dev, le.ino) = (d, i) := by
+  simp [LE.hasKey]
+
+theorem lookup_none_of_all (tbl : List LE) (d i : Int) (h : ∀ le ∈ tbl, le.hasKey d i = false) :
+    lookup tbl d i = none := by
+  simp [lookup, List.find?_eq_none]; intro x hx; simpa using h x hx
+
+theorem lookup_split (pre post : List LE) (le0 : LE) (d i : Int) (h0 : le0.hasKey d i = true)
+    (hpre : ∀ le ∈ pre, le.hasKey d i = false) : lookup (pre ++ le0 :: post) d i = some le0 := by
+  unfold lookup
+  rw [List.find?_append]
+  have : pre.find? (·.hasKey d i) = none := by
+    simp [List.find?_eq_none]; intro x hx; simpa using hpre x hx
+  simp [this, h0]
+
+/-- With unique keys, no record after the first match has the key. -/
+theorem nodup_post (pre post : List LE) (le0 : LE) (d i : Int) (h0 : le0.hasKey d i = true)
+    (hn : KeysNodup (pre ++ le0 :: post)) : ∀ le ∈ post, le.hasKey d i = false := by
+  intro le hle
+  unfold KeysNodup at hn
+  simp only [List.map_append, List.map_cons] at hn
+  have h2 := (List.nodup_append.mp hn).2.1
+  have h3 := (List.nodup_cons.mp h2).1
+  cases hk : le.hasKey d i with
+  | false => rfl
+  | true =>
+    exfalso; apply h3
+    have e1 := (hasKey_iff le0 d i).mp h0
+    have e2 := (hasKey_iff le d i).mp hk
+    rw [e1, ← e2]
+    exact List.mem_map.mpr ⟨le, hle, rfl⟩
+
+/-- What `find_entry` does to the record of its own key and to the others. -/
+theorem findEntry_lookup (tbl : List LE) (d i : Int) (h : Option Ent → Option Ent) (hn : KeysNodup tbl) :
+    (findEntry tbl d i h).1 = (lookup tbl d i).map (fun le => { le with links := u32dec le.links }) ∧
+    lookup (findEntry tbl d i h).2 d i =
+      (match lookup tbl d i with
+       | none => none
+       | some le => if u32dec le.links > 0 then some { le with links := u32dec le.links, held := h le.held } else none) ∧
+    (∀ d' i', (d', i') ≠ (d, i) → lookup (findEntry tbl d i h).2 d' i' = lookup tbl d' i') ∧
+    KeysNodup (findEntry tbl d i h).2 := by
+  rcases findEntry_spec tbl d i h with ⟨h1, h2⟩ | ⟨pre, le0, post, h1, h2, h3, h4⟩
+  · have hl := lookup_none_of_all tbl d i h2
+    rw [h1, hl]; simp [hn]
+  · have hl : lookup tbl d i = some le0 := by rw [h1]; exact lookup_split pre post le0 d i h2 h3
+    have hpost := nodup_post pre post le0 d i h2 (by rw [← h1]; exact hn)
+    rw [h4, hl]
+    refine ⟨by simp, ?_, ?_, ?_⟩
+    · by_cases hgt : u32dec le0.links > 0
+      · simp only [hgt, if_true]
+        exact lookup_split pre post _ d i (by simpa [LE.hasKey] using h2) h3
+      · simp only [hgt, if_false]
+        apply lookup_none_of_all
+        intro le hle
+        rcases List.mem_append.mp hle with hm | hm
+        · exact h3 le hm
+        · exact hpost le hm
+    · intro d' i' hne
+      have hk0 : le0.hasKey d' i' = false := by
+        cases hk : le0.hasKey d' i' with
+        | false => rfl
+        | true =>
+          exfalso; apply hne
+          rw [← (hasKey_iff le0 d' i').mp hk, (hasKey_iff le0 d i).mp h2]
+      rw [h1]
+      unfold lookup
+      by_cases hgt : u32dec le0.links > 0
+      · simp only [hgt, if_true, List.find?_append, List.find?_cons]
+        have : ({ le0 with links := u32dec le0.links, held := h le0.held } : LE).hasKey d' i' = false := by
+          simpa [LE.hasKey] using hk0
+        simp [this, hk0]
+      · simp only [hgt, if_false, List.find?_append, List.find?_cons]
+        simp [hk0]
+    · unfold KeysNodup at hn ⊢
+      rw [h1] at hn
+      by_cases hgt : u32dec le0.links > 0
+      · simp only [hgt, if_true]
+        simpa using hn
+      · simp only [hgt, if_false]
+        simp only [List.map_append, List.map_cons] at hn ⊢
+        have ⟨a, b, c⟩ := List.nodup_append.mp hn
+        refine List.nodup_append.mpr ⟨a, (List.nodup_cons.mp b).2, ?_⟩
+        intro x hx y hy
+        exact c x hx y (List.mem_cons_of_mem _ hy)
+
+theorem insertEntry_lookup (tbl : List LE) (e : Ent) (held : Option Ent) (hn : KeysNodup tbl)
+    (hnone : lookup tbl e.dev e.ino = none) :
+    lookup (insertEntry tbl e held) e.dev e.ino = some (LE.ofEnt e held) ∧
+    (∀ d' i', (d', i') ≠ (e.dev, e.ino) → lookup (insertEntry tbl e held) d' i' = lookup tbl d' i') ∧
+    KeysNodup (insertEntry tbl e held) := by
+  have hall : ∀ le ∈ tbl, le.hasKey e.dev e.ino = false := by
+    intro le hle
+    have := List.find?_eq_none.mp hnone le hle
+    simpa using this
+  have hk : (LE.ofEnt e held).hasKey e.dev e.ino = true := by simp [LE.hasKey, LE.ofEnt]
+  refine ⟨?_, ?_, ?_⟩
+  · unfold insertEntry
+    have := lookup_split tbl [] (LE.ofEnt e held) e.dev e.ino hk hall
+    simpa using this
+  · intro d' i' hne
+    unfold insertEntry lookup
+    rw [List.find?_append]
+    have : (LE.ofEnt e held).hasKey d' i' = false := by
+      cases hk' : (LE.ofEnt e held).hasKey d' i' with
+      | false => rfl
+      | true =>
+        exfalso; apply hne
+        have := (hasKey_iff _ d' i').mp hk'
+        simpa [LE.ofEnt] using this.symm
+    simp [this]
+  · unfold KeysNodup insertEntry at *
+    simp only [List.map_append, List.map_cons, List.map_nil]
+    refine List.nodup_append.mpr ⟨hn, by simp, ?_⟩
+    intro x hx y hy
+    simp at hy
+    subst hy
+    obtain ⟨le, hle, rfl⟩ := List.mem_map.mp hx
+    intro heq
+    have := hall le hle
+    have h2 : le.hasKey e.dev e.ino = true := (hasKey_iff le e.dev e.ino).mpr (by simpa [LE.ofEnt] using heq)
+    rw [this] at h2; cases h2
+
+/-- tar and mtree: first member of a key is kept and recorded, later members
+become hard links to the recorded first pathname; other keys are not disturbed. -/
+theorem tarlike_push (s : State) (e : Ent) (u : Bool)
+    (hs : (s.strategy = .tar ∧ u = true) ∨ (s.strategy = .mtree ∧ u = false))
+    (hp : passthrough e = false) (hn : KeysNodup s.tbl) :
+    KeysNodup (push s e).1.tbl ∧ (push s e).1.strategy = s.strategy ∧
+    (∀ d' i', (d', i') ≠ (e.dev, e.ino) → lookup (push s e).1.tbl d' i' = lookup s.tbl d' i') ∧
+    (match lookup s.tbl e.dev e.ino with
+     | none => (push s e).2 = (some e, none) ∧
+               lookup (push s e).1.tbl e.dev e.ino = some (LE.ofEnt e none)
+     | some le => (push s e).2 = (some (e.mkLink le.canon u), none) ∧
+               lookup (push s e).1.tbl e.dev e.ino =
+                 if u32dec le.links > 0 then some { le with links := u32dec le.links } else none) := by
+  obtain ⟨f1, f2, f3, f4⟩ := findEntry_lookup s.tbl e.dev e.ino id hn
+  have hstrat := push_strategy s e
+  unfold push at *
+  simp only [hp, Bool.false_eq_true, if_false] at *
+  rcases hs with ⟨hs, hu⟩ | ⟨hs, hu⟩ <;> subst hu <;> simp only [hs] at * <;>
+  · cases hl : lookup s.tbl e.dev e.ino with
+    | none =>
+      rw [hl] at f1 f2
+      simp only [Option.map_none] at f1
+      have hfe : findEntry s.tbl e.dev e.ino id = (none, (findEntry s.tbl e.dev e.ino id).2) := by
+        rw [← f1]
+      have htbl : (findEntry s.tbl e.dev e.ino id).2 = s.tbl := by
+        rcases findEntry_spec s.tbl e.dev e.ino id with ⟨h1, _⟩ | ⟨pre, le0, post, _, _, _, h4⟩
+        · rw [h1]
+        · rw [h4] at f1; simp at f1
+      rw [hfe]
+      obtain ⟨g1, g2, g3⟩ := insertEntry_lookup s.tbl e none hn hl
+      exact ⟨g3, by first | rfl | trivial, g2, by first | rfl | trivial, g1⟩
+    | some le =>
+      rw [hl] at f1 f2
+      simp only [Option.map_some] at f1
+      have hfe : findEntry s.tbl e.dev e.ino id =
+          (some { le with links := u32dec le.links }, (findEntry s.tbl e.dev e.ino id).2) := by
+        rw [← f1]
+      rw [hfe]
+      simp only [] at f2 ⊢
+      refine ⟨f4, by first | rfl | trivial, f3, by first | rfl | trivial, ?_⟩
+      simpa using f2
+
+theorem u32dec_pos (m : Nat) (h1 : 1 ≤ m) (h2 : m < 4294967296) : u32dec m = m - 1 := by
+  unfold u32dec; omega
+
+def TarLike (s : State) (u : Bool) : Prop :=
+  (s.strategy = .tar ∧ u = true) ∨ (s.strategy = .mtree ∧ u = false)
+
+/-- Remaining members of an open group: each comes out as a hard link to the
+group's first pathname and the group is forgotten after the last one. -/
+theorem tarlike_rest (u : Bool) (d i : Int) (es : List Ent) :
+    ∀ (s : State) (le : LE), TarLike s u → KeysNodup s.tbl → lookup s.tbl d i = some le →
+      (∀ e ∈ es, e.dev = d ∧ e.ino = i ∧ passthrough e = false) →
+      es.length = le.links → 1 ≤ le.links → le.links < 4294967296 →
+      (run s (es.map .push)).2 = es.map (·.mkLink le.canon u) ∧
+      lookup (run s (es.map .push)).1.tbl d i = none ∧ KeysNodup (run s (es.map .push)).1.tbl := by
+  induction es with
+  | nil => intro s le _ _ _ _ hlen h1 _; simp at hlen; omega
+  | cons e rest ih =>
+    intro s le hs hn hl hall hlen h1 h2
+    obtain ⟨ed, ei, ep⟩ := hall e (by simp)
+    obtain ⟨p1, p2, _, p4⟩ := tarlike_push s e u hs ep hn
+    rw [ed, ei, hl] at p4
+    obtain ⟨q1, q2⟩ := p4
+    have hs' : TarLike (push s e).1 u := by unfold TarLike at *; rw [p2]; exact hs
+    simp only [List.map_cons, run, step]
+    have hout : (push s e).2.1.toList ++ (push s e).2.2.toList = [e.mkLink le.canon u] := by
+      rw [q1]; rfl
+    by_cases hr : rest = []
+    · subst hr
+      have hl1 : le.links = 1 := by simp at hlen; omega
+      have : ¬ u32dec le.links > 0 := by rw [u32dec_pos _ h1 h2, hl1]; omega
+      simp only [this, if_false] at q2
+      simp only [List.map_nil, run, List.append_nil, hout]
+      exact ⟨by first | rfl | trivial, q2, p1⟩
+    · have hlen' : rest.length = le.links - 1 := by simp at hlen; omega
+      have hpos : 1 ≤ rest.length := by
+        cases rest with
+        | nil => exact absurd rfl hr
+        | cons _ _ => simp
+      have hgt : u32dec le.links > 0 := by rw [u32dec_pos _ h1 h2]; omega
+      simp only [hgt, if_true] at q2
+      have := ih (push s e).1 { le with links := u32dec le.links } hs' p1 q2
+        (fun x hx => hall x (List.mem_cons_of_mem _ hx))
+        (by simp only []; rw [u32dec_pos _ h1 h2]; exact hlen')
+        (by simp only []; rw [u32dec_pos _ h1 h2]; omega)
+        (by simp only []; rw [u32dec_pos _ h1 h2]; omega)
+      obtain ⟨r1, r2, r3⟩ := this
+      refine ⟨?_, r2, r3⟩
+      rw [hout, r1]; rfl
+
+/-- **C17, tar and mtree groups.**  Members `e₁ … eₙ` of one (dev, ino) group with
+link count `n`, pushed in this order (entries of *other* groups may be pushed in
+between: `tarlike_push` shows they do not disturb the record): the first comes
+out unchanged and carries the body, every other one comes out as a hard link to
+the first one's pathname (size unset under tar), and the resolver forgets the
+group, so a later entry with the same key starts a new one. -/
+theorem tarlike_group (s : State) (u : Bool) (e1 : Ent) (rest : List Ent)
+    (hs : TarLike s u) (hn : KeysNodup s.tbl) (hnone : lookup s.tbl e1.dev e1.ino = none)
+    (h1 : passthrough e1 = false)
+    (hall : ∀ e ∈ rest, e.dev = e1.dev ∧ e.ino = e1.ino ∧ passthrough e = false)
+    (hcount : e1.nlink = rest.length + 1) (hrest : 1 ≤ rest.length) (hlt : e1.nlink < 4294967296) :
+    (run s ((e1 :: rest).map .push)).2 = e1 :: rest.map (·.mkLink e1.tag u) ∧
+    lookup (run s ((e1 :: rest).map .push)).1.tbl e1.dev e1.ino = none := by
+  obtain ⟨p1, p2, _, p4⟩ := tarlike_push s e1 u hs h1 hn
+  rw [hnone] at p4
+  obtain ⟨q1, q2⟩ := p4
+  have hs' : TarLike (push s e1).1 u := by unfold TarLike at *; rw [p2]; exact hs
+  have hlinks : (LE.ofEnt e1 none).links = rest.length := by
+    simp only [LE.ofEnt]
+    rw [Nat.mod_eq_of_lt hlt, u32dec_pos _ (by omega) hlt]; omega
+  obtain ⟨r1, r2, _⟩ := tarlike_rest u e1.dev e1.ino rest (push s e1).1 (LE.ofEnt e1 none) hs' p1 q2 hall
+    hlinks.symm (by rw [hlinks]; exact hrest) (by rw [hlinks]; omega)
+  simp only [List.map_cons, run, step]
+  have hout : (push s e1).2.1.toList ++ (push s e1).2.2.toList = [e1] := by rw [q1]; rfl
+  refine ⟨?_, r2⟩
+  rw [hout, r1]; rfl
+
+/-- Non-vacuity: a three-member group under the tar strategy. -/
+example :
+    let e (t : Nat) : Ent := { tag := t, dev := 5, ino := 7, nlink := 3, ftype := .reg }
+    (run { strategy := .tar } ([e 1, e 2, e 3].map .push)).2 =
+      [e 1, (e 2).mkLink 1 true, (e 3).mkLink 1 true] := by decide
+
+/-- new cpio: the first member is parked; each later member swaps places with the
+parked one, which comes out as a hard link to the first pathname; the last
+member also comes out itself, unchanged, carrying the body. -/
+theorem newcpio_push (s : State) (e : Ent) (hs : s.strategy = .newCpio)
+    (hp : passthrough e = false) (hn : KeysNodup s.tbl) :
+    KeysNodup (push s e).1.tbl ∧ (push s e).1.strategy = s.strategy ∧
+    (∀ d' i', (d', i') ≠ (e.dev, e.ino) → lookup (push s e).1.tbl d' i' = lookup s.tbl d' i') ∧
+    (match lookup s.tbl e.dev e.ino with
+     | none => (push s e).2 = (none, none) ∧
+               lookup (push s e).1.tbl e.dev e.ino = some (LE.ofEnt e (some e))
+     | some le =>
+       if u32dec le.links > 0 then
+         (push s e).2 = (le.held.map (·.mkLink le.canon true), none) ∧
+         lookup (push s e).1.tbl e.dev e.ino = some { le with links := u32dec le.links, held := some e }
+       else
+         (push s e).2 = (le.held.map (·.mkLink le.canon true), some e) ∧
+         lookup (push s e).1.tbl e.dev e.ino = none) := by
+  obtain ⟨f1, f2, f3, f4⟩ := findEntry_lookup s.tbl e.dev e.ino (fun _ => some e) hn
+  have hstrat := push_strategy s e
+  unfold push at *
+  simp only [hp, Bool.false_eq_true, if_false, hs] at *
+  cases hl : lookup s.tbl e.dev e.ino with
+  | none =>
+    rw [hl] at f1 f2
+    simp only [Option.map_none] at f1
+    have hfe : findEntry s.tbl e.dev e.ino (fun _ => some e) =
+        (none, (findEntry s.tbl e.dev e.ino (fun _ => some e)).2) := by rw [← f1]
+    rw [hfe]
+    obtain ⟨g1, g2, g3⟩ := insertEntry_lookup s.tbl e (some e) hn hl
+    exact ⟨g3, by first | rfl | trivial, g2, by first | rfl | trivial, g1⟩
+  | some le =>
+    rw [hl] at f1 f2
+    simp only [Option.map_some] at f1
+    have hfe : findEntry s.tbl e.dev e.ino (fun _ => some e) =
+        (some { le with links := u32dec le.links }, (findEntry s.tbl e.dev e.ino (fun _ => some e)).2) := by
+      rw [← f1]
+    rw [hfe]
+    simp only [] at f2 ⊢
+    by_cases hgt : u32dec le.links > 0
+    · have hne : (u32dec le.links == 0) = false := by simp; omega
+      simp only [hgt, if_true, hne] at f2 ⊢
+      exact ⟨f4, by first | rfl | trivial, f3, by first | rfl | trivial, f2⟩
+    · have h0 : u32dec le.links = 0 := by omega
+      simp only [hgt, if_false, h0] at f2 ⊢
+      exact ⟨f4, by first | rfl | trivial, f3, by first | rfl | trivial, f2⟩
+
+theorem newcpio_rest (d i : Int) (mid : List Ent) :
+    ∀ (s : State) (le : LE) (h last : Ent), s.strategy = .newCpio → KeysNodup s.tbl →
+      lookup s.tbl d i = some le → le.held = some h →
+      (∀ e ∈ mid ++ [last], e.dev = d ∧ e.ino = i ∧ passthrough e = false) →
+      mid.length + 1 = le.links → le.links < 4294967296 →
+      (run s ((mid ++ [last]).map .push)).2 = (h :: mid).map (·.mkLink le.canon true) ++ [last] ∧
+      lookup (run s ((mid ++ [last]).map .push)).1.tbl d i = none := by
+  induction mid with
+  | nil =>
+    intro s le h last hs hn hl hh hall hlen h2
+    obtain ⟨ed, ei, ep⟩ := hall last (by simp)
+    obtain ⟨p1, p2, _, p4⟩ := newcpio_push s last hs ep hn
+    rw [ed, ei, hl] at p4
+    have hl1 : le.links = 1 := by simp at hlen; omega
+    have : ¬ u32dec le.links > 0 := by rw [u32dec_pos _ (by omega) h2, hl1]; omega
+    simp only [this, if_false] at p4
+    obtain ⟨q1, q2⟩ := p4
+    simp only [List.nil_append, List.map_cons, List.map_nil, run, step, List.append_nil]
+    have e1 : (push s last).2.1 = some (h.mkLink le.canon true) := by rw [q1, hh]; rfl
+    have e2 : (push s last).2.2 = some last := by rw [q1]
+    rw [e1, e2]
+    exact ⟨by simp, q2⟩
+  | cons e mid ih =>
+    intro s le h last hs hn hl hh hall hlen h2
+    obtain ⟨ed, ei, ep⟩ := hall e (by simp)
+    obtain ⟨p1, p2, _, p4⟩ := newcpio_push s e hs ep hn
+    rw [ed, ei, hl] at p4
+    have hge : 2 ≤ le.links := by simp at hlen; omega
+    have hgt : u32dec le.links > 0 := by rw [u32dec_pos _ (by omega) h2]; omega
+    simp only [hgt, if_true] at p4
+    obtain ⟨q1, q2⟩ := p4
+    have hs' : (push s e).1.strategy = .newCpio := by rw [p2]; exact hs
+    have := ih (push s e).1 { le with links := u32dec le.links, held := some e } e last hs' p1 q2 rfl
+      (fun x hx => hall x (by simp at hx ⊢; rcases hx with h | h <;> simp [h]))
+      (by simp only []; rw [u32dec_pos _ (by omega) h2]; simp at hlen; omega)
+      (by simp only []; rw [u32dec_pos _ (by omega) h2]; omega)
+    obtain ⟨r1, r2⟩ := this
+    simp only [List.cons_append, List.map_cons, run, step]
+    refine ⟨?_, r2⟩
+    have e1 : (push s e).2.1 = some (h.mkLink le.canon true) := by rw [q1, hh]; rfl
+    have e2 : (push s e).2.2 = none := by rw [q1]
+    rw [r1, e1, e2]
+    simp
+
+/-- **C17, new-cpio groups.**  Members `e₁, mid…, last` (link count = their number,
+at least 2) pushed in this order come out as `e₁, mid…` marked as hard links to
+`e₁`'s pathname with their size unset, followed by `last` unchanged: exactly the
+last member carries the body. -/
+theorem newcpio_group (s : State) (e1 last : Ent) (mid : List Ent)
+    (hs : s.strategy = .newCpio) (hn : KeysNodup s.tbl) (hnone : lookup s.tbl e1.dev e1.ino = none)
+    (h1 : passthrough e1 = false)
+    (hall : ∀ e ∈ mid ++ [last], e.dev = e1.dev ∧ e.ino = e1.ino ∧ passthrough e = false)
+    (hcount : e1.nlink = mid.length + 2) (hlt : e1.nlink < 4294967296) :
+    (run s ((e1 :: (mid ++ [last])).map .push)).2 =
+      (e1 :: mid).map (·.mkLink e1.tag true) ++ [last] ∧
+    lookup (run s ((e1 :: (mid ++ [last])).map .push)).1.tbl e1.dev e1.ino = none := by
+  obtain ⟨p1, p2, _, p4⟩ := newcpio_push s e1 hs h1 hn
+  rw [hnone] at p4
+  obtain ⟨q1, q2⟩ := p4
+  have hs' : (push s e1).1.strategy = .newCpio := by rw [p2]; exact hs
+  have hlinks : (LE.ofEnt e1 (some e1)).links = mid.length + 1 := by
+    simp only [LE.ofEnt]
+    rw [Nat.mod_eq_of_lt hlt, u32dec_pos _ (by omega) hlt]; omega
+  obtain ⟨r1, r2⟩ := newcpio_rest e1.dev e1.ino mid (push s e1).1 (LE.ofEnt e1 (some e1)) e1 last hs' p1 q2 rfl hall
+    hlinks.symm (by rw [hlinks]; omega)
+  simp only [List.map_cons, run, step]
+  refine ⟨?_, r2⟩
+  have x1 : (push s e1).2.1 = none := by rw [q1]
+  have x2 : (push s e1).2.2 = none := by rw [q1]
+  rw [r1, x1, x2]
+  simp [LE.ofEnt]
+
+example :
+    let e (t : Nat) : Ent := { tag := t, dev := 5, ino := 7, nlink := 3, ftype := .reg }
+    (run { strategy := .newCpio } ([e 1, e 2, e 3].map .push)).2 =
+      [(e 1).mkLink 1 true, (e 2).mkLink 1 true, e 3] := by decide
+
+/-- Unique keys hold in every reachable state. -/
+theorem keys_nodup_init (st : Strategy) : KeysNodup ({ strategy := st } : State).tbl := by
+  simp [KeysNodup]
+
+
+theorem push_keys (s : State) (e : Ent) (hn : KeysNodup s.tbl) : KeysNodup (push s e).1.tbl := by
+  by_cases hp : passthrough e = true
+  · have : push s e = (s, some e, none) := by unfold push; simp [hp]
+    rw [this]; exact hn
+  · have hp' : passthrough e = false := by simpa using hp
+    cases hs : s.strategy with
+    | oldCpio =>
+      have : push s e = (s, some e, none) := by unfold push; simp [hp, hs]
+      rw [this]; exact hn
+    | tar => exact (tarlike_push s e true (Or.inl ⟨hs, rfl⟩) hp' hn).1
+    | mtree => exact (tarlike_push s e false (Or.inr ⟨hs, rfl⟩) hp' hn).1
+    | newCpio => exact (newcpio_push s e hs hp' hn).1
+
+theorem takeNth_keys (p : LE → Bool) (tbl : List LE) (k : Nat) (hn : KeysNodup tbl) :
+    ∀ x t, takeNth p tbl k = some (x, t) → KeysNodup t := by
+  intro x t h
+  rcases takeNth_spec p tbl k with ⟨h1, _⟩ | ⟨pre, le, post, h1, _, h3⟩
+  · rw [h1] at h; cases h
+  · rw [h3] at h
+    cases h
+    unfold KeysNodup at *
+    rw [h1] at hn
+    simp only [List.map_append, List.map_cons] at hn ⊢
+    have ⟨a, b, c⟩ := List.nodup_append.mp hn
+    exact List.nodup_append.mpr ⟨a, (List.nodup_cons.mp b).2, fun x hx y hy => c x hx y (List.mem_cons_of_mem _ hy)⟩
+
+/-- Every reachable resolver state has at most one record per (dev, ino): the
+hypothesis `KeysNodup` of the group theorems is not a restriction. -/
+theorem reachable_keys_nodup (st : Strategy) (ops : List Op) :
+    KeysNodup (run { strategy := st } ops).1.tbl := by
+  have h0 := keys_nodup_init st
+  generalize ({ strategy := st } : State) = s at h0
+  induction ops generalizing s with
+  | nil => exact h0
+  | cons op ops ih =>
+    simp only [run]
+    apply ih
+    cases op with
+    | push e => exact push_keys s e h0
+    | drain k =>
+      simp only [step, drainAt]
+      cases h : takeNth (fun le => le.held.isSome) s.tbl k with
+      | none => exact h0
+      | some r => exact takeNth_keys _ _ _ h0 r.1 r.2 h
+    | partialLinks k =>
+      simp only [step, partialAt]
+      cases h : takeNth (fun le => le.held.isNone) s.tbl k with
+      | none => exact h0
+      | some r => exact takeNth_keys _ _ _ h0 r.1 r.2 h
 
 end LA.C17
